@@ -1,5 +1,6 @@
 import DmrVerif.Driver.Loop
+import DmrVerif.Driver.Mbxml
 
-/-! model driver for property C14 (stub: no operations registered yet) -/
+/-! model driver for property C14 -/
 
-def main : IO Unit := Dmr.Driver.runMain []
+def main : IO Unit := Dmr.Driver.runMain [Dmr.Driver.mbxmlOp]
